@@ -92,11 +92,14 @@ structure BankShape (declared : List String) (b : RegisterBank) : Prop where
   ctlDecl : b.stall ∉ declared ∧ b.bubble ∉ declared
   sigs : SigsOK declared b.signals b.defaults
 
-structure S3Facts (declared : List String) (s : Step3) (acc : BankAcc) : Prop where
+structure S3Facts (declared : List String) (na : String → Prop) (s : Step3) (acc : BankAcc) : Prop where
   seen : s.seenRegisters = bankNames s.banks ++ sigNames acc.signals
   nodup : s.seenRegisters.Nodup
   banks : ∀ b ∈ s.banks, BankShape declared b
-  acc : SigsOK declared acc.signals acc.defaults
+  accSigs : SigsOK declared acc.signals acc.defaults
+  /-- no register output is an assigned name -/
+  outsNA : ∀ b ∈ s.banks, ∀ sg ∈ b.signals, na sg.2.1
+  accNA : ∀ sg ∈ acc.signals, na sg.2.1
 
 theorem sigNames_append (a b : List (String × String × Width)) : sigNames (a ++ b) = sigNames a ++ sigNames b := by
   simp [sigNames]
@@ -108,10 +111,11 @@ theorem regPre_clean (bank inName outName : String) (acc : BankAcc) (seen : List
     (h : (regPre s1 constants bank inName outName acc seen r).1 = []) :
     inName ∉ s1.declared ∧ outName ∉ s1.declared ∧ acc.defaults.contains outName = false ∧
     outName ∉ seen ∧ inName ∉ seen ∧ inName ≠ outName ∧
-    (regPre s1 constants bank inName outName acc seen r).2 = seen ++ [outName] ++ [inName] := by
+    (regPre s1 constants bank inName outName acc seen r).2 = seen ++ [outName] ++ [inName] ∧
+    s1.assignments.contains outName = false := by
   unfold regPre at h ⊢
   simp only [List.append_eq_nil_iff] at h ⊢
-  obtain ⟨⟨⟨⟨⟨_, h2⟩, h3⟩, _⟩, h5⟩, h6⟩ := h
+  obtain ⟨⟨⟨⟨⟨_, h2⟩, h3⟩, h4⟩, h5⟩, h6⟩ := h
   have h5' : seen.contains outName = false := by
     by_cases hc : seen.contains outName = true
     · rw [if_pos hc] at h5; simp at h5
@@ -138,7 +142,11 @@ theorem regPre_clean (bank inName outName : String) (acc : BankAcc) (seen : List
     by_cases hc : acc.defaults.contains outName = true
     · rw [if_pos hc] at h3; simp at h3
     · simpa using hc
-  exact ⟨by simpa using hd.1, by simpa using hd.2, h3', by simpa using h5', hin.1, hin.2, trivial⟩
+  have h4' : s1.assignments.contains outName = false := by
+    by_cases hc : s1.assignments.contains outName = true
+    · rw [if_pos hc] at h4; simp at h4
+    · simpa using hc
+  exact ⟨by simpa using hd.1, by simpa using hd.2, h3', by simpa using h5', hin.1, hin.2, trivial, h4'⟩
 
 theorem checkFixEval_err (Γ : Ctx) (κ : Env) (e : Ex) (ds : List Diag) (h : checkFixEval fl Γ κ e = .error ds) : ds ≠ [] := by
   unfold checkFixEval at h
@@ -216,9 +224,9 @@ variable (fl : Flags) (s1 : Step1) (constants : AMap WireValue)
 theorem step3Register_inv (bank : String) (inP outP : Char) (s : Step3) (acc : BankAcc) (r : RegDecl)
     (hr : r.width.ok)
     (hclean : (step3Register fl s1 constants bank inP outP (s, acc) r).1.errors = [])
-    (hf : S3Facts s1.declared s acc) :
+    (hf : S3Facts s1.declared (fun n => s1.assignments.contains n = false) s acc) :
     s.errors = [] ∧
-    S3Facts s1.declared (step3Register fl s1 constants bank inP outP (s, acc) r).1
+    S3Facts s1.declared (fun n => s1.assignments.contains n = false) (step3Register fl s1 constants bank inP outP (s, acc) r).1
       (step3Register fl s1 constants bank inP outP (s, acc) r).2 ∧
     (step3Register fl s1 constants bank inP outP (s, acc) r).1.banks = s.banks := by
   unfold step3Register at hclean ⊢
@@ -229,7 +237,7 @@ theorem step3Register_inv (bank : String) (inP outP : Char) (s : Step3) (acc : B
   by_cases hpe : pre.1.isEmpty = true
   · have hpnil : pre.1 = [] := by simpa using hpe
     simp only [hpe, Bool.not_true, Bool.false_eq_true, if_false] at hclean ⊢
-    obtain ⟨h1, h2, h3, h4, h5, h6, h7⟩ := regPre_clean s1 constants bank inName outName acc s.seenRegisters r (by rw [hpre]; exact hpnil)
+    obtain ⟨h1, h2, h3, h4, h5, h6, h7, h8⟩ := regPre_clean s1 constants bank inName outName acc s.seenRegisters r (by rw [hpre]; exact hpnil)
     rw [hpre] at h7
     obtain ⟨g0, dv, g1, g2, g3, g4, g5⟩ := regEval_inv fl constants bank inName outName _ acc r hr hclean
     simp only [hpnil, List.append_nil] at g0
@@ -255,8 +263,14 @@ theorem step3Register_inv (bank : String) (inP outP : Char) (s : Step3) (acc : B
           · intro e; subst e; exact h4 ha
           · intro e; subst e; exact h5 ha
       banks := by rw [g4]; exact hf.banks
-      acc := sigsOK_push s1.declared acc.signals acc.defaults inName outName r.width dv hf.acc
-        ⟨inP, r.name, hin.symm⟩ ⟨outP, r.name, hout.symm⟩ h1 h2 hr h3 g1 g2 }
+      accSigs := sigsOK_push s1.declared acc.signals acc.defaults inName outName r.width dv hf.accSigs
+        ⟨inP, r.name, hin.symm⟩ ⟨outP, r.name, hout.symm⟩ h1 h2 hr h3 g1 g2
+      outsNA := by rw [g4]; exact hf.outsNA
+      accNA := by
+        intro sg hsg
+        rcases List.mem_append.mp hsg with hm | hm
+        · exact hf.accNA sg hm
+        · simp at hm; subst hm; exact h8 }
   · exfalso
     simp only [hpe] at hclean
     simp only [Bool.not_false, if_true, List.append_eq_nil_iff] at hclean
@@ -285,8 +299,8 @@ theorem regs_fold_errors_back (bank : String) (inP outP : Char) (regs : List Reg
 theorem regs_fold_inv (bank : String) (inP outP : Char) : ∀ (regs : List RegDecl) (s : Step3) (acc : BankAcc),
     (∀ r ∈ regs, r.width.ok) →
     (regs.foldl (step3Register fl s1 constants bank inP outP) (s, acc)).1.errors = [] →
-    S3Facts s1.declared s acc →
-    S3Facts s1.declared (regs.foldl (step3Register fl s1 constants bank inP outP) (s, acc)).1
+    S3Facts s1.declared (fun n => s1.assignments.contains n = false) s acc →
+    S3Facts s1.declared (fun n => s1.assignments.contains n = false) (regs.foldl (step3Register fl s1 constants bank inP outP) (s, acc)).1
       (regs.foldl (step3Register fl s1 constants bank inP outP) (s, acc)).2 ∧
     (regs.foldl (step3Register fl s1 constants bank inP outP) (s, acc)).1.banks = s.banks
   | [], s, acc, _, _, hf => ⟨hf, rfl⟩
@@ -302,8 +316,8 @@ theorem bankNames_append (a b : List RegisterBank) : bankNames (a ++ b) = bankNa
 
 theorem step3Bank_inv (s : Step3) (b : BankDecl) (hb : ∀ r ∈ b.regs, r.width.ok)
     (hclean : (step3Bank fl cls s1 constants s b).errors = [])
-    (hf : S3Facts s1.declared s {}) :
-    s.errors = [] ∧ S3Facts s1.declared (step3Bank fl cls s1 constants s b) {} := by
+    (hf : S3Facts s1.declared (fun n => s1.assignments.contains n = false) s {}) :
+    s.errors = [] ∧ S3Facts s1.declared (fun n => s1.assignments.contains n = false) (step3Bank fl cls s1 constants s b) {} := by
   unfold step3Bank at hclean ⊢
   split at hclean
   · rename_i inP outP hname
@@ -337,9 +351,9 @@ theorem step3Bank_inv (s : Step3) (b : BankDecl) (hb : ∀ r ∈ b.regs, r.width
         · by_cases hc : s1.declared.contains ("bubble_" ++ String.ofList [outP]) = true
           · rw [if_pos hc] at h2; simp at h2
           · simpa using hc
-      have hf0 : S3Facts s1.declared s0 {} := by
+      have hf0 : S3Facts s1.declared (fun n => s1.assignments.contains n = false) s0 {} := by
         rw [← hs0]
-        exact ⟨hf.seen, hf.nodup, hf.banks, hf.acc⟩
+        exact ⟨hf.seen, hf.nodup, hf.banks, hf.accSigs, hf.outsNA, hf.accNA⟩
       obtain ⟨g1, g2⟩ := regs_fold_inv fl s1 constants b.name inP outP b.regs s0 {} hb hfold_clean hf0
       refine ⟨hs0e'.1, ?_⟩
       generalize b.regs.foldl (step3Register fl s1 constants b.name inP outP) (s0, {}) = fin at g1 g2 ⊢
@@ -359,8 +373,15 @@ theorem step3Bank_inv (s : Step3) (b : BankDecl) (hb : ∀ r ∈ b.regs, r.width
             exact {
               ctl := ⟨outP, rfl, rfl⟩
               ctlDecl := ⟨by simpa using hs0e'.2.1, by simpa using hs0e'.2.2⟩
-              sigs := g1.acc }
-        acc := ⟨by intro sg h; simp at h, by intro p h; simp at h, by simp [AMap.keys]⟩ }
+              sigs := g1.accSigs }
+        accSigs := ⟨by intro sg h; simp at h, by intro p h; simp at h, by simp [AMap.keys]⟩
+        outsNA := by
+          intro bk hbk sg hsg
+          have hbk' : bk ∈ fin.1.banks ++ [_] := hbk
+          rcases List.mem_append.mp hbk' with h1 | h1
+          · exact g1.outsNA bk h1 sg hsg
+          · simp at h1; subst h1; exact g1.accNA sg hsg
+        accNA := by intro sg h; simp at h }
   · simp at hclean
 end
 
@@ -390,8 +411,8 @@ theorem banks_fold_errors_back (banks : List BankDecl) (s : Step3)
 theorem banks_fold_inv : ∀ (banks : List BankDecl) (s : Step3),
     (∀ b ∈ banks, ∀ r ∈ b.regs, r.width.ok) →
     (banks.foldl (step3Bank fl cls s1 constants) s).errors = [] →
-    S3Facts s1.declared s {} →
-    S3Facts s1.declared (banks.foldl (step3Bank fl cls s1 constants) s) {}
+    S3Facts s1.declared (fun n => s1.assignments.contains n = false) s {} →
+    S3Facts s1.declared (fun n => s1.assignments.contains n = false) (banks.foldl (step3Bank fl cls s1 constants) s) {}
   | [], _, _, _, hf => hf
   | b :: rest, s, hb, hclean, hf => by
     simp only [List.foldl_cons] at hclean ⊢
@@ -402,8 +423,9 @@ theorem banks_fold_inv : ∀ (banks : List BankDecl) (s : Step3),
 /-- **step 3**: with no error recorded, every bank has the documented shape and all register signal names are distinct -/
 theorem step3_facts (hb : ∀ b ∈ s1.banksRaw, ∀ r ∈ b.regs, r.width.ok)
     (hclean : (s1.banksRaw.foldl (step3Bank fl cls s1 constants) { wireTypes := s1.wireTypes }).errors = []) :
-    S3Facts s1.declared (s1.banksRaw.foldl (step3Bank fl cls s1 constants) { wireTypes := s1.wireTypes }) {} :=
+    S3Facts s1.declared (fun n => s1.assignments.contains n = false) (s1.banksRaw.foldl (step3Bank fl cls s1 constants) { wireTypes := s1.wireTypes }) {} :=
   banks_fold_inv fl cls s1 constants s1.banksRaw _ hb hclean
     ⟨by simp [bankNames, sigNames], by simp, by intro b h; simp at h,
-     ⟨by intro sg h; simp at h, by intro p h; simp at h, by simp [AMap.keys]⟩⟩
+     ⟨by intro sg h; simp at h, by intro p h; simp at h, by simp [AMap.keys]⟩,
+     by intro b h; simp at h, by intro sg h; simp at h⟩
 end
